@@ -619,7 +619,7 @@ static void DecodeWORD(Word Code) {
 
     UNUSED(Code);
 
-    if (ChkArgCnt(1, ArgCntMax)) {
+    if (ChkArgCnt(1, ArgCntMax) && SetMaxCodeLenForArgs()) {
         OK = True;
         z  = 1;
         while ((z <= ArgCnt) && (OK)) {
